@@ -165,6 +165,8 @@ class DataPacketQueue(utils.EventEmitter):
                 f'{packet_count} completed for {connection_handle} '
                 f'but only {connection_state.in_flight} in flight'
             )
+            # Only the buffers held by this connection can have been released
+            packet_count = connection_state.in_flight
             connection_state.in_flight = 0
         if connection_state.in_flight == 0:
             connection_state.drained.set()
